@@ -37,8 +37,11 @@ def confined(codes, chunks):
 
 def build_case(vals, codes, chunks_i, func, method, reindex, by_dask, split_every, dtype="f8"):
     n = len(vals)
-    comps = gen.compositions(n)
-    chunks = comps[chunks_i % len(comps)]
+    if n == 10:
+        chunks = [2] * 5
+    else:
+        comps = gen.compositions(n)
+        chunks = comps[chunks_i % len(comps)]
     if method == "blockwise" and not confined(codes, chunks):
         return None
     if func in BLOCKWISE_ONLY and method != "blockwise":
@@ -78,6 +81,11 @@ def spaces(ctx):
         mk_space("f8inf-5", [gen.iv(-2), gen.iv(0), gen.iv(3), gen.NAN, gen.PINF, gen.NINF], 5,
                  [[0, 1, 0, 1, 0], [1, 0, 0, 1, 1], [2, 0, 1, 0, 2], [0, -1, 0, 1, 1], [-1, -1, 0, 0, 1]], FUNCS, full=True, split_every=(2, 3)),
         mk_space("f8-6", [gen.iv(-1), gen.iv(2), gen.NAN], 6, gen.code_patterns(6), FUNCS, full=True, split_every=(2, 3, None)),
+        # layouts on which the planner MERGES partially overlapping cohorts (5 chunks of 2)
+        gen.Space("merge-10", {"vals": [[gen.iv(((3 * i + j) % 7) - 3) if (i + j) % 5 else gen.NAN for i in range(10)] for j in range(4)],
+                               "codes": [[0, 0, 0, 1, 0, 1, 0, 1, 1, 1], [0, 1, 0, 1, 0, 2, 0, 2, 1, 2], [0, 0, 1, 0, 1, 0, 1, 2, 2, 2], [1, 0, 1, 0, 1, 0, 0, -1, 0, 2]],
+                               "chunks_i": [0], "func": FUNCS, "method": [None, "cohorts"], "reindex": [None, False], "by_dask": [False],
+                               "split_every": [None, 2]}, lambda **kw: build_case(**dict(kw, chunks_i=0))),
         mk_space("i8-4", gen.ALPHA_INT, 4, gen.code_patterns(4, with_missing=False),
                  ["sum", "prod", "mean", "var", "max", "min", "argmax", "nanargmin", "nanfirst", "nanlast", "count"], full=True, dtype="i8", split_every=(None, 2)),
         mk_space("bool-4", gen.ALPHA_BOOL, 4, gen.code_patterns(4, with_missing=False)[:3], ["any", "all", "sum", "count", "max"], full=True, dtype="b1"),
